@@ -169,4 +169,148 @@ theorem parseSheet_sheetData (seqs : List SheetSeq) (ver : Nat) (hver : ver ≤ 
   simp only [show ¬ ver > 1 by omega, show ¬ seqs.length > 64 by omega, if_false]
   exact parseSeqs_bytes ver hver seqs [] [] hall hnd (by simp)
 
+/-! ## resource table -/
+
+/-- what a resource reads back as: bit `0x02` of the flags is the storage kind. -/
+def normRes (r : Res) : Res :=
+  if r.isBytes then { r with flags := r.flags &&& 0xFD, ival := 0 }
+  else { r with flags := r.flags ||| 2, data := [] }
+
+def resWF (r : Res) : Bool :=
+  r.id.length == 3 && decide (r.flags < 256) && decide (r.ival < 256 ^ 4) &&
+    decide (r.data.length < 256 ^ 4) && r.id != idLow && r.id != idHigh && r.id != idSheet
+
+theorem flag_facts : ∀ f, f < 256 →
+    (f &&& 0xFD) &&& 2 = 0 ∧ (f ||| 2) &&& 2 ≠ 0 ∧ f &&& 0xFD < 256 ∧ f ||| 2 < 256 := by
+  decide +kernel
+
+abbrev Entry := List Nat × Nat × Nat
+
+def encEntry (e : Entry) : List Nat := e.1 ++ [e.2.1] ++ le 4 e.2.2
+
+def entryWF (e : Entry) : Bool := e.1.length == 3 && decide (e.2.1 < 256) && decide (e.2.2 < 256 ^ 4)
+
+/-- the table entries of the resources, data blocks starting at `start`. -/
+def entriesFrom (start : Nat) : List Res → List Entry
+  | [] => []
+  | r :: rs =>
+    if r.isBytes then (r.id, r.flags &&& 0xFD, start) :: entriesFrom (start + 4 + r.data.length) rs
+    else (r.id, r.flags ||| 2, r.ival) :: entriesFrom start rs
+
+def stored (e : Entry) : Res := ⟨e.1, e.2.1, false, e.2.2, []⟩
+
+theorem resEntries_eq (rs : List Res) : ∀ start,
+    resEntries rs (resOffsets start rs) = (entriesFrom start rs).map encEntry := by
+  induction rs with
+  | nil => intro _; rfl
+  | cons r rs ih =>
+    intro start
+    by_cases hb : r.isBytes
+    · simp [resEntries, resOffsets, entriesFrom, hb, ih, resEntry, encEntry]
+    · simp [resEntries, resOffsets, entriesFrom, hb, ih, resEntry, encEntry]
+
+theorem readEntries_enc (es : List Entry) (hwf : es.all entryWF = true) (rest : List Nat) :
+    readEntries es.length ((es.map encEntry).flatten ++ rest) = .ok es := by
+  induction es with
+  | nil => rfl
+  | cons e es ih =>
+    obtain ⟨id, fl, dat⟩ := e
+    simp only [List.all_cons, Bool.and_eq_true, entryWF, beq_iff_eq, decide_eq_true_eq] at hwf
+    obtain ⟨⟨⟨hid, hfl⟩, hdat⟩, hrest⟩ := hwf
+    have hsplit : splitW [3, 1, 4] ((List.map encEntry ((id, fl, dat) :: es)).flatten ++ rest)
+        = some ([id, [fl], le 4 dat], (es.map encEntry).flatten ++ rest) := by
+      apply splitW_of
+      · simp [hid]
+      · simp [encEntry, List.append_assoc]
+    simp only [List.length_cons, readEntries, hsplit, ih hrest]
+    rw [leDecode_le' 4 dat hdat]
+    simp [leDecode]; rfl
+
+theorem procEntries_plain (es : List Entry) :
+    ∀ (acc : List Res) (lo hi : Option Nat) (es' : List Entry),
+      (∀ e ∈ es, e.1 ≠ idLow ∧ e.1 ≠ idHigh) → ((acc.map (·.id)) ++ es.map (·.1)).Nodup →
+      procEntries (es ++ es') acc lo hi = procEntries es' (acc ++ es.map stored) lo hi := by
+  induction es with
+  | nil => intro acc lo hi es' _ _; simp
+  | cons e es ih =>
+    intro acc lo hi es' hres hnd
+    obtain ⟨id, fl, dat⟩ := e
+    have h1 := hres (id, fl, dat) (by simp)
+    have hnot : acc.any (fun r => r.id == id) = false := by
+      rw [List.any_eq_false]
+      intro r hr heq
+      have : id ∈ acc.map (·.id) := List.mem_map.mpr ⟨r, hr, by simpa using heq⟩
+      have hd := (List.nodup_append.mp hnd).2.2 id this id (by simp)
+      exact hd rfl
+    simp only [List.cons_append, procEntries, hnot, Bool.false_eq_true, if_false]
+    have hl : (id == idLow) = false := by simpa using h1.1
+    have hh : (id == idHigh) = false := by simpa using h1.2
+    simp only [hl, hh, Bool.false_eq_true, if_false]
+    have e : (⟨id, fl, false, dat, []⟩ : Res) = stored (id, fl, dat) := rfl
+    rw [e, ih (acc ++ [stored (id, fl, dat)]) lo hi es'
+      (fun e he => hres e (by simp [he]))
+      (by
+        simp only [List.map_append, List.map_cons, List.map_nil, List.append_assoc,
+          List.singleton_append, stored]
+        simpa using hnd)]
+    simp [stored]
+
+theorem resolveAll_append (file : List Nat) (a b : List Res) (a' b' : List Res)
+    (ha : resolveAll file a = .ok a') (hb : resolveAll file b = .ok b') :
+    resolveAll file (a ++ b) = .ok (a' ++ b') := by
+  induction a generalizing a' with
+  | nil => simp [resolveAll, pure, Except.pure] at ha; subst ha; simpa using hb
+  | cons r rs ih =>
+    simp only [resolveAll] at ha
+    cases hr : resolveRes file r with
+    | error e => simp [hr] at ha
+    | ok r' =>
+      cases hrs : resolveAll file rs with
+      | error e => simp [hr, hrs] at ha
+      | ok rs' =>
+        simp [hr, hrs, pure, Except.pure] at ha
+        subst ha
+        simp [resolveAll, hr, ih rs' hrs, pure, Except.pure]
+
+theorem resolveAll_blocks (rs : List Res) : ∀ (file pre post : List Nat),
+    file = pre ++ ((resBlocks rs).flatten ++ post) → rs.all resWF = true →
+    resolveAll file ((entriesFrom pre.length rs).map stored) = .ok (rs.map normRes) := by
+  induction rs with
+  | nil => intro _ _ _ _ _; rfl
+  | cons r rs ih =>
+    intro file pre post hfile hwf
+    simp only [List.all_cons, Bool.and_eq_true] at hwf
+    obtain ⟨hr, hrest⟩ := hwf
+    simp only [resWF, Bool.and_eq_true, beq_iff_eq, decide_eq_true_eq] at hr
+    obtain ⟨⟨⟨⟨⟨⟨hid, hfl⟩, hiv⟩, hdl⟩, _⟩, _⟩, _⟩ := hr
+    have F := flag_facts r.flags hfl
+    by_cases hb : r.isBytes
+    · have hfile' : file = pre ++ (le 4 r.data.length ++ (r.data ++ ((resBlocks rs).flatten ++ post))) := by
+        rw [hfile]; simp [resBlocks, hb, List.append_assoc]
+      have hres : resolveRes file (stored (r.id, r.flags &&& 0xFD, pre.length)) = .ok (normRes r) := by
+        simp only [resolveRes, stored, F.1, if_true]
+        rw [hfile', u32At_mid pre _ _ hdl]
+        simp only []
+        have : slice (pre ++ (le 4 r.data.length ++ (r.data ++ ((resBlocks rs).flatten ++ post))))
+            (pre.length + 4) r.data.length = r.data := by
+          have := slice_mid' (pre ++ le 4 r.data.length) r.data ((resBlocks rs).flatten ++ post)
+            r.data.length rfl
+          simpa [List.append_assoc] using this
+        rw [this]
+        simp [normRes, hb, pure, Except.pure]
+      have hrec := ih file (pre ++ (le 4 r.data.length ++ r.data)) post
+        (by rw [hfile']; simp [List.append_assoc]) hrest
+      simp only [List.length_append, length_le'] at hrec
+      simp only [entriesFrom, hb, if_true, List.map_cons, resolveAll, hres]
+      rw [show pre.length + 4 + r.data.length = pre.length + (4 + r.data.length) by omega, hrec]
+      rfl
+    · have hfile' : file = pre ++ ((resBlocks rs).flatten ++ post) := by
+        rw [hfile]; simp [resBlocks, hb]
+      have hres : resolveRes file (stored (r.id, r.flags ||| 2, r.ival)) = .ok (normRes r) := by
+        simp only [resolveRes, stored, F.2.1, if_false]
+        simp [normRes, hb, pure, Except.pure]
+      simp only [entriesFrom, hb, Bool.false_eq_true, if_false, List.map_cons, resolveAll, hres,
+        ih file pre post hfile' hrest]
+      rfl
+
 end C15
